@@ -177,6 +177,9 @@ class Contract:
     branch_iff: dict = field(default_factory=dict)  # "if#k" -> Clause: branch taken exactly under the condition
     lemmas_at: dict = field(default_factory=dict)   # "entry" / "post" / "after ..." -> ["lemma(args)"]
     ghost_results: dict = field(default_factory=dict)  # ghost locals mentioned by ensures: name -> T (existential for callers)
+    block: Optional[tuple] = None       # (first key, last key): the contract is a Hoare triple on this contiguous block of
+                                        # statements of the function ("assign x #0" style keys); `params` are the block's inputs
+    attrs: dict = field(default_factory=dict)       # attribute expression text -> spec expression (e.g. "inst.n_items": "n")
     summaries: dict = field(default_factory=dict)   # "<stmt pattern> #k" -> Summary (assumed effect of an unmodelled statement)
     split: list = field(default_factory=list)       # "if#k": keep the two branch states as separate paths (no merge)
     must_fail: list = field(default_factory=list)
